@@ -152,6 +152,22 @@ fn read_source_files(
     Ok((files, imports, source_list))
 }
 
+/// A package that imports itself is a dependency cycle of length one; whole-program compilation
+/// reports it from `topo_sort_packages` with the same text.
+fn self_import_error(opts: &PackageInputs) -> CompilationError {
+    let dir = opts
+        .input_files
+        .iter()
+        .min()
+        .and_then(|file| file.parent())
+        .map(|dir| dir.display().to_string())
+        .unwrap_or_default();
+    compile_error(format!(
+        "package dependency cycle detected: {} ({}) -> {} ({})",
+        opts.package, dir, opts.package, dir
+    ))
+}
+
 fn typecheck_single_package(
     package: &str,
     files: Vec<hir::SourceFileAst>,
@@ -190,7 +206,10 @@ pub fn check_package(opts: PackageInputs) -> Result<InterfaceUnit, CompilationEr
     let mut dep_hashes = BTreeMap::new();
 
     for dep in deps {
-        if dep == "Builtin" || dep == opts.package {
+        if dep == opts.package {
+            return Err(self_import_error(&opts));
+        }
+        if dep == "Builtin" {
             continue;
         }
         let unit = load_interface_from_paths(&dep, &opts.interface_paths)?;
@@ -224,7 +243,10 @@ pub fn build_package(opts: PackageInputs) -> Result<CoreUnit, CompilationError> 
     let mut dep_units = Vec::new();
 
     for dep in deps {
-        if dep == "Builtin" || dep == opts.package {
+        if dep == opts.package {
+            return Err(self_import_error(&opts));
+        }
+        if dep == "Builtin" {
             continue;
         }
         let unit = load_interface_from_paths(&dep, &opts.interface_paths)?;
